@@ -897,9 +897,17 @@ impl<'a> LabelValue<'a> {
         else {
             self.target.buf.push_str(", ");
         }
-        write!(
-            &mut self.target.buf, "{name}=\"{value}\""
-        ).expect("writing to string");
+        write!(&mut self.target.buf, "{name}=\"").expect("writing to string");
+        // Backslash, double quote, and line feed need to be escaped.
+        for ch in value.to_string().chars() {
+            match ch {
+                '\\' => self.target.buf.push_str("\\\\"),
+                '"' => self.target.buf.push_str("\\\""),
+                '\n' => self.target.buf.push_str("\\n"),
+                ch => self.target.buf.push(ch)
+            }
+        }
+        self.target.buf.push('"');
         self
     }
 
